@@ -213,26 +213,23 @@ def ref_split(body):
 
 def parts_conform(body, parts, dev):
     """None if `parts` satisfy the property for this strict/tolerant compound body, else text.
-    dev: set of enabled deviation rules (KF_PRE: exactly the behaviour 'text before the first
-    marker is discarded': part1 == BLK, part2 == '{' POST '}')."""
+    dev: set of enabled deviation rules.  Under KF_PRE ('the statements before the first marker
+    are discarded') the same clauses are evaluated with flat(PRE) left out of the expected
+    sequence; the rule applies only when flat(PRE) is not empty."""
     cls, pre, blk, post = classify_compound(body)
     if cls == "other":
         raise ValueError("parts_conform on a non-compound")
     if not isinstance(parts, (tuple, list)) or len(parts) != 2 or not all(isinstance(p, str) for p in parts):
         return "result is not a pair of strings: %r" % (parts,)
     p1, p2 = parts
-    if KF_PRE in dev:
-        if not flat(pre):
-            return "rule does not apply (nothing before the first marker)"
-        if p1 == blk and p2 == "{" + post + "}":
-            return None
-        return "differs from the pre-marker-dropped outcome"
+    if KF_PRE in dev and not flat(pre):
+        return "rule does not apply (nothing before the first marker)"
     for k, p in ((1, p1), (2, p2)):
         if MARK in p:
             return "part %d still contains a marker: %r" % (k, p)
         if not is_block(p):
             return "part %d is not one brace-balanced block: %r" % (k, p)
-    exp = flat(pre) + flat(blk[1:-1]) + flat(post)
+    exp = ([] if KF_PRE in dev else flat(pre)) + flat(blk[1:-1]) + flat(post)
     g1 = flat(p1[1:-1])
     g2 = flat(p2[1:-1])
     if g1 + g2 != exp:
